@@ -476,6 +476,10 @@ func GenC05(seed, run uint64, ok CompileOK) *Scenario {
 	} else {
 		s.Exprs = genExprs(g, r.Range(1, 4), ok, func() (*E, bool, bool) { return g.Top(), false, false })
 	}
+	compileStorm := r.Chance(1, 6) // a run about concurrent Compile / CompileWithNS calls only
+	if compileStorm {
+		s.Cfg.NS = r.Chance(1, 2)
+	}
 	nt := r.Range(2, 4)
 	// tasks collide on purpose: a "hot" (expression, document, context) that
 	// most operations use
@@ -505,6 +509,9 @@ func GenC05(seed, run uint64, ok CompileOK) *Scenario {
 				st.N = r.Intn(3)
 			case 3:
 				st.Op = "mustbad"
+			}
+			if compileStorm && st.Op != "mustbad" {
+				st.Op, st.N = "compile", r.Intn(2)
 			}
 			if s.Cfg.Faults && st.Op != "mustbad" && r.Chance(1, 10) {
 				st.Crash = r.Range(1, 30) // this operation's navigator fails half-way; the others must not notice
